@@ -116,13 +116,62 @@ EXACT = {            # dotted callee text -> kind (None = pure, not emitted)
     'find_outside_quotes': None,
 }
 PURE_METHODS = {     # <value>.<m>(...) on values that are not I/O objects
-    'is_error', 'copy', 'decode', 'encode', 'upper', 'lower', 'format', 'startswith',
-    'rstrip', 'split', 'join', 'append', 'get', 'items', 'match', 'search', 'group', 'end',
-    'flatten', 'encode_7bit', 'set', 'set_exception', 'ready', 'appendleft', 'add', 'reset',
-    'drop', 'getparam', 'build_string', 'getheader', 'getheaders', '__init__',
+    # Reply / Envelope / AsyncResult(non-waiting) / Extensions / deque(non-waiting) / http response
+    'is_error', 'copy', 'flatten', 'encode_7bit', 'set', 'set_exception', 'ready', 'appendleft',
+    'add', 'reset', 'drop', 'getparam', 'build_string', 'parse_string', 'getheader', 'getheaders',
+    '__init__',
+    # str / bytes
+    'decode', 'encode', 'upper', 'lower', 'title', 'capitalize', 'casefold', 'format', 'startswith',
+    'endswith', 'strip', 'lstrip', 'rstrip', 'split', 'rsplit', 'splitlines', 'partition', 'rpartition',
+    'replace', 'find', 'rfind', 'index', 'count', 'isdigit', 'isalpha', 'isalnum', 'isspace',
+    'zfill', 'ljust', 'rjust', 'center', 'translate', 'hex',
+    'join',              # only with exactly one positional argument (str.join), see pure_method_ok
+    # list / dict / set / BytesIO
+    'append', 'extend', 'insert', 'remove', 'sort', 'reverse', 'clear',
+    'get',               # only with one or two positional arguments (dict.get), see pure_method_ok
+    'items', 'keys', 'values', 'setdefault', 'update', 'discard', 'union', 'getvalue',
+    # re
+    'match', 'search', 'fullmatch', 'finditer', 'findall', 'sub', 'group', 'groups', 'start', 'end', 'span',
 }
 LOG_ROOT = 'log'
-IO_ROOTS = ('self.client', 'self.io', 'self.conn', 'self.socket')
+IO_ROOTS = ('self.client.io', 'self.client', 'self.io', 'self.conn', 'self.socket')    # longest first
+# attributes of the I/O objects that hold plain data (a Reply, bytes, a list, Extensions):
+# pure methods reached THROUGH one of these are pure; everything else under an I/O root
+# that is not in the explicit tables stays an error.
+IO_DATA_ATTRS = {
+    'self.client': ('last_error', 'extensions', 'reply_queue', 'rcpttos'),
+    'self.client.io': ('recv_buffer', 'send_buffer', 'address'),
+    'self.io': ('recv_buffer', 'send_buffer', 'address'),
+    'self.conn': ('host', 'port'),
+    'self.socket': (),
+}
+
+
+def io_root_of(name):
+    """(root, [attributes after the root]) when the dotted name lies under an I/O object"""
+    for root in IO_ROOTS:
+        if name == root:
+            return root, []
+        if name.startswith(root + '.'):
+            return root, name[len(root) + 1:].split('.')
+    return None, None
+
+
+def io_data_chain(name):
+    """True: under an I/O root but through one of its data attributes (self.client.last_error...)"""
+    root, rest = io_root_of(name)
+    return root is not None and len(rest) >= 1 and rest[0] in IO_DATA_ATTRS[root]
+
+
+def pure_method_ok(call, attr):
+    """argument shapes that tell str.join / dict.get from Greenlet.join() / AsyncResult.get()"""
+    if attr not in PURE_METHODS:
+        return False
+    if attr == 'join':
+        return len(call.args) == 1 and not call.keywords
+    if attr == 'get':
+        return 1 <= len(call.args) <= 2 and not call.keywords
+    return True
 
 
 class Unclassified(Exception):
@@ -263,7 +312,7 @@ class MethodScanner(object):
             if dotted(inner.func) == 'Reply' and f.attr == 'copy':
                 self.pure += 1
                 return
-            if f.attr in PURE_METHODS:
+            if pure_method_ok(node, f.attr):
                 self.call(inner, scopes)          # the inner call must classify on its own
                 self.pure += 1
                 return
@@ -276,9 +325,9 @@ class MethodScanner(object):
         name = dotted(f)
         if name is None:
             # <subscript or other expression>.<pure method>(...), e.g. arg[a:b].decode('utf-8')
-            if isinstance(f, ast.Attribute) and f.attr in PURE_METHODS and isinstance(f.value, ast.Subscript):
+            if isinstance(f, ast.Attribute) and pure_method_ok(node, f.attr) and isinstance(f.value, ast.Subscript):
                 base = dotted(f.value.value)
-                if base is not None and not any(base == r or base.startswith(r + '.') for r in IO_ROOTS) \
+                if base is not None and (io_root_of(base)[0] is None or io_data_chain(base)) \
                         and base.split('.')[0] not in self.types:
                     self.visit(f.value, scopes)
                     self.pure += 1
@@ -307,9 +356,13 @@ class MethodScanner(object):
             return self.table(node, scopes, IO_METHODS, parts[2], parts[2], name)
         if name.startswith('self.conn.') and len(parts) == 3:
             return self.table(node, scopes, CONN_METHODS, parts[2], parts[2], name)
-        for root in IO_ROOTS:
-            if name == root or name.startswith(root + '.'):
-                self.err(node, 'unclassified call on I/O object: %s' % name)
+        root, rest = io_root_of(name)
+        if root is not None:
+            # e.g. self.client.last_error.is_error(), self.io.recv_buffer.startswith(b'x')
+            if len(rest) >= 2 and io_data_chain(name) and pure_method_ok(node, rest[-1]):
+                self.pure += 1
+                return
+            self.err(node, 'unclassified call on I/O object: %s' % name)
         # typed locals
         if len(parts) == 2 and parts[0] in self.types:
             t = self.types[parts[0]]
@@ -331,7 +384,7 @@ class MethodScanner(object):
         if parts[0] == LOG_ROOT and len(parts) == 2:
             self.pure += 1
             return
-        if len(parts) >= 2 and parts[-1] in PURE_METHODS:
+        if len(parts) >= 2 and pure_method_ok(node, parts[-1]):
             self.pure += 1
             return
         self.err(node, 'unclassified call: %s' % name)
